@@ -5,7 +5,7 @@
 
 use flurry::verif::{self, Cell as VCell, Event, Hooks, Kind, Op};
 use std::cell::RefCell;
-use std::collections::{BTreeMap, HashMap};
+use std::collections::{BTreeMap, HashMap, HashSet};
 use std::panic::Location;
 use std::sync::atomic::{AtomicBool, AtomicU64, Ordering};
 use std::sync::{Arc, Condvar, Mutex};
@@ -558,6 +558,142 @@ fn abort_thread() -> ! {
     std::panic::resume_unwind(Box::new(Abort));
 }
 
+
+/* ------------------------------------------------------------------ */
+/* happens-before (vector clocks) over the orderings the code passes   */
+
+/// Vector-clock happens-before relation of one scheduled run, computed from the orderings the
+/// crate actually passes (property C15): release stores / RMWs publish the writer's clock at the
+/// cell, acquire loads / RMWs of that cell join it (release sequences continue through RMWs, a
+/// plain relaxed store ends them), a mutex acquisition joins the clock of the previous holder,
+/// unpark -> park joins. Deliberate over-approximations (they can hide a missing edge, never
+/// invent a violation): mutex release is not hooked, so an acquisition joins the previous holder's
+/// *current* clock; operations on the integer control words (size_ctl, transfer_index, count,
+/// lock_state) report no outcome, so a CAS counts as successful.
+/// Checked: whenever a thread dereferences an object allocated during the run, the allocation
+/// (and with it the initialisation, which precedes it in program order) happens-before the
+/// dereference.
+pub struct Hb {
+    pub vc: Vec<Vec<u64>>,
+    rel: HashMap<usize, Vec<u64>>,
+    lock_holder: HashMap<usize, usize>,
+    tokens: Vec<Vec<u64>>,
+    alloc: HashMap<usize, (usize, u64)>,
+    pub violations: Vec<String>,
+    seen: HashSet<(String, u32)>,
+    pub derefs_checked: u64,
+    pub cross_thread_derefs: u64,
+    pub acquire_joins: u64,
+}
+
+static HB_ON: AtomicBool = AtomicBool::new(false);
+static HB: Mutex<Option<Hb>> = Mutex::new(None);
+
+fn join(a: &mut [u64], b: &[u64]) {
+    for (x, y) in a.iter_mut().zip(b.iter()) {
+        if *y > *x {
+            *x = *y;
+        }
+    }
+}
+
+pub fn hb_start(n: usize) {
+    let mut vc = vec![vec![0u64; n]; n];
+    for (t, v) in vc.iter_mut().enumerate() {
+        v[t] = 1;
+    }
+    *HB.lock().unwrap() = Some(Hb {
+        vc,
+        rel: HashMap::new(),
+        lock_holder: HashMap::new(),
+        tokens: vec![vec![0u64; n]; n],
+        alloc: HashMap::new(),
+        violations: Vec::new(),
+        seen: HashSet::new(),
+        derefs_checked: 0,
+        cross_thread_derefs: 0,
+        acquire_joins: 0,
+    });
+    HB_ON.store(true, Ordering::SeqCst);
+}
+
+pub fn hb_finish() -> Option<Hb> {
+    HB_ON.store(false, Ordering::SeqCst);
+    HB.lock().unwrap().take()
+}
+
+fn hb_with(f: impl FnOnce(&mut Hb, usize)) {
+    if !HB_ON.load(Ordering::SeqCst) {
+        return;
+    }
+    let me = MODE.with(|m| match &*m.borrow() {
+        Mode::Sched(me, _) => Some(*me),
+        _ => None,
+    });
+    if let Some(me) = me {
+        let mut g = HB.lock().unwrap();
+        if let Some(h) = g.as_mut() {
+            if me < h.vc.len() {
+                f(h, me);
+            }
+        }
+    }
+}
+
+fn is_acq(o: Ordering) -> bool {
+    matches!(o, Ordering::Acquire | Ordering::AcqRel | Ordering::SeqCst)
+}
+fn is_rel(o: Ordering) -> bool {
+    matches!(o, Ordering::Release | Ordering::AcqRel | Ordering::SeqCst)
+}
+
+impl Hb {
+    fn tick(&mut self, me: usize) {
+        self.vc[me][me] += 1;
+    }
+    fn acquire(&mut self, me: usize, addr: usize) {
+        if let Some(r) = self.rel.get(&addr) {
+            let r = r.clone();
+            join(&mut self.vc[me], &r);
+            self.acquire_joins += 1;
+        }
+    }
+    /// an atomic access whose outcome is known
+    fn access(&mut self, me: usize, kind: Kind, addr: usize, ord: Ordering, ord_fail: Option<Ordering>, wrote: bool) {
+        match kind {
+            Kind::Load | Kind::CloneLoad => {
+                if is_acq(ord) {
+                    self.acquire(me, addr);
+                }
+            }
+            Kind::Store => {
+                self.tick(me);
+                if is_rel(ord) {
+                    self.rel.insert(addr, self.vc[me].clone());
+                } else {
+                    self.rel.remove(&addr);
+                }
+            }
+            Kind::Swap | Kind::Rmw | Kind::Cas => {
+                if wrote {
+                    if is_acq(ord) {
+                        self.acquire(me, addr);
+                    }
+                    self.tick(me);
+                    if is_rel(ord) {
+                        let mut r = self.rel.get(&addr).cloned().unwrap_or_else(|| vec![0; self.vc.len()]);
+                        join(&mut r, &self.vc[me]);
+                        self.rel.insert(addr, r);
+                    }
+                    // a relaxed RMW keeps the release sequence it continues
+                } else if is_acq(ord_fail.unwrap_or(Ordering::Relaxed)) {
+                    self.acquire(me, addr);
+                }
+            }
+        }
+    }
+}
+
 /* ------------------------------------------------------------------ */
 /* the Hooks implementation                                             */
 
@@ -608,9 +744,15 @@ impl Hooks for H {
                 }
             }
         });
+        if op.cell != flurry::verif::Cell::Ptr {
+            // the integer control words report no outcome: a CAS counts as successful
+            hb_with(|h, me| h.access(me, op.kind, op.addr, op.ord, op.ord_fail, true));
+        }
     }
-    fn after_op(&self, op: &Op, _observed: usize, _written: Option<usize>) {
-        let _ = op;
+    fn after_op(&self, op: &Op, _observed: usize, written: Option<usize>) {
+        if op.cell == flurry::verif::Cell::Ptr {
+            hb_with(|h, me| h.access(me, op.kind, op.addr, op.ord, op.ord_fail, written.is_some() || op.kind == Kind::Store));
+        }
     }
     fn before_lock(&self, lock: &parking_lot::Mutex<()>, loc: &'static Location<'static>) {
         check_touch(lock as *const _ as usize, "lock", loc);
@@ -624,6 +766,16 @@ impl Hooks for H {
                 }
                 if s.yield_as(*me, Status::WaitLock(lock as *const _ as usize)).is_err() {
                     abort_thread();
+                }
+            }
+        });
+        // the thread runs on only when the mutex is free: join the previous holder's clock
+        hb_with(|h, me| {
+            let a = lock as *const _ as usize;
+            if let Some(prev) = h.lock_holder.insert(a, me) {
+                if prev != me {
+                    let c = h.vc[prev].clone();
+                    join(&mut h.vc[me], &c);
                 }
             }
         });
@@ -642,13 +794,29 @@ impl Hooks for H {
                 }
             }
         });
+        hb_with(|h, me| {
+            let c = h.tokens[me].clone();
+            join(&mut h.vc[me], &c);
+        });
     }
     fn on_unpark(&self, target: std::thread::ThreadId) {
+        let mut tgt = None;
         MODE.with(|m| {
             if let Mode::Sched(_, s) = &*m.borrow() {
                 s.unpark(target);
+                let g = s.inner.lock().unwrap();
+                tgt = g.thread_ids.iter().position(|x| *x == Some(target));
             }
         });
+        if let Some(t) = tgt {
+            hb_with(|h, me| {
+                h.tick(me);
+                let c = h.vc[me].clone();
+                if t < h.tokens.len() {
+                    join(&mut h.tokens[t], &c);
+                }
+            });
+        }
     }
     fn spin(&self, _loc: &'static Location<'static>) {
         MODE.with(|m| match &*m.borrow() {
@@ -668,10 +836,29 @@ impl Hooks for H {
             m.n_alloc += 1;
             m.live.insert(ptr, size);
         });
+        hb_with(|h, me| {
+            h.tick(me);
+            let c = h.vc[me][me];
+            h.alloc.insert(ptr, (me, c));
+        });
     }
     fn deref(&self, ptr: usize, loc: &'static Location<'static>) {
         mem_with(|m| m.n_deref += 1);
         check_touch(ptr, "dereference", loc);
+        hb_with(|h, me| {
+            if let Some(&(t0, c0)) = h.alloc.get(&ptr) {
+                h.derefs_checked += 1;
+                if t0 != me {
+                    h.cross_thread_derefs += 1;
+                    if h.vc[me][t0] < c0 && h.seen.insert((loc.file().to_string(), loc.line())) {
+                        h.violations.push(format!(
+                            "thread {} dereferences at {}:{} an object that thread {} allocated and initialised at its event {}, but only events up to {} of thread {} happen-before this access (no release/acquire chain from the initialisation to the read)",
+                            me, loc.file(), loc.line(), t0, c0, h.vc[me][t0], t0
+                        ));
+                    }
+                }
+            }
+        });
     }
     fn into_box(&self, ptr: usize, loc: &'static Location<'static>) {
         check_touch(ptr, "into_box", loc);
@@ -701,6 +888,11 @@ impl Hooks for H {
     }
     fn reclaim(&self, ptr: usize, _size: usize, _align: usize) -> bool {
         // take the block over; it counts as freed only once its destructor has run
+        if HB_ON.load(Ordering::SeqCst) {
+            if let Some(h) = HB.lock().unwrap().as_mut() {
+                h.alloc.remove(&ptr);
+            }
+        }
         mem_with(|m| {
             m.n_reclaim += 1;
             m.live.remove(&ptr);
